@@ -524,9 +524,9 @@ fn end_to_end(ctx: &Ctx, t: &mut Tally) -> Value {
         return json!({"skipped": format!("release binary {bin} not built")});
     }
     let scenarios = vec![
-        Scenario { name: "nothing at the segment path, not even its directory", args: vec![], chronyd: None, phc: PhcFile::Absent, preexisting: None, observe_ms: 1200, ..Scenario::blank() },
-        Scenario { name: "72 bytes of 0xAA at the segment path", args: vec![], chronyd: None, phc: PhcFile::Absent, preexisting: Some(vec![0xAA; SEG]), observe_ms: 1200, ..Scenario::blank() },
-        Scenario { name: "an empty file at the segment path", args: vec!["--max-drift-rate".into(), "7".into()], chronyd: None, phc: PhcFile::Absent, preexisting: Some(vec![]), observe_ms: 1200, ..Scenario::blank() },
+        Scenario { name: "nothing at the segment path, not even its directory", args: vec![], chronyd: None, phc: PhcFile::Absent, preexisting: None, observe_ms: 1200, wait_for_publications: 1, ..Scenario::blank() },
+        Scenario { name: "72 bytes of 0xAA at the segment path", args: vec![], chronyd: None, phc: PhcFile::Absent, preexisting: Some(vec![0xAA; SEG]), observe_ms: 1200, wait_for_publications: 1, ..Scenario::blank() },
+        Scenario { name: "an empty file at the segment path", args: vec!["--max-drift-rate".into(), "7".into()], chronyd: None, phc: PhcFile::Absent, preexisting: Some(vec![]), observe_ms: 1200, wait_for_publications: 1, ..Scenario::blank() },
     ];
     let results: Vec<Result<Value, String>> = std::thread::scope(|s| {
         let hs: Vec<_> = scenarios.iter().map(|sc| { let bin = bin.clone(); s.spawn(move || e2e::run_scenario(&bin, sc)) }).collect();
